@@ -3677,6 +3677,16 @@ class Graph(_protocols.GraphProtocol, Sequence[Node], _display.PrettyPrintable):
         for value in self.initializers.values():
             self._name_authority.register_or_name_value(value)
 
+    def _check_nodes_can_be_added(self, nodes: Iterable[Node], anchor: Node | None = None) -> None:
+        """Raise if any node (or the anchor to insert next to) is rejected. Does not modify anything."""
+        if anchor is not None and anchor.graph is not self:
+            raise ValueError(f"The node '{anchor!r}' does not belong to this graph.")
+        for node in nodes:
+            if node.graph is not None and node.graph is not self:
+                raise ValueError(
+                    f"The node '{node!r}' belongs to another graph. Please remove it first with Graph.remove()."
+                )
+
     def _set_node_graph_to_self_and_assign_names(self, node: Node) -> Node:
         """Set the graph reference for the node and assign names to it and its outputs if they don't have one."""
         if node.graph is not None and node.graph is not self:
@@ -3834,6 +3844,9 @@ class Graph(_protocols.GraphProtocol, Sequence[Node], _display.PrettyPrintable):
         Raises:
             ValueError: If any node belongs to another graph.
         """
+        nodes = tuple(nodes)
+        # Check every node first so that a rejected node leaves the others untouched
+        self._check_nodes_can_be_added(nodes)
         nodes = [self._set_node_graph_to_self_and_assign_names(node) for node in nodes]
         self._nodes.extend(nodes)
 
@@ -3891,6 +3904,9 @@ class Graph(_protocols.GraphProtocol, Sequence[Node], _display.PrettyPrintable):
         """
         if isinstance(new_nodes, Node):
             new_nodes = (new_nodes,)
+        new_nodes = tuple(new_nodes)
+        # Check the anchor and every node first so that a rejected call changes nothing
+        self._check_nodes_can_be_added(new_nodes, anchor=node)
         new_nodes = [self._set_node_graph_to_self_and_assign_names(node) for node in new_nodes]
         self._nodes.insert_after(node, new_nodes)
 
@@ -3908,6 +3924,9 @@ class Graph(_protocols.GraphProtocol, Sequence[Node], _display.PrettyPrintable):
         """
         if isinstance(new_nodes, Node):
             new_nodes = (new_nodes,)
+        new_nodes = tuple(new_nodes)
+        # Check the anchor and every node first so that a rejected call changes nothing
+        self._check_nodes_can_be_added(new_nodes, anchor=node)
         new_nodes = [self._set_node_graph_to_self_and_assign_names(node) for node in new_nodes]
         self._nodes.insert_before(node, new_nodes)
 
